@@ -65,6 +65,7 @@ var registry = map[string]propDef{
 	"C18y": {"other", props.C18layout},
 	"C19m": {"other", props.C19mesh},
 	"C19s": {"other", props.C19setconn},
+	"C19w": {"other", props.C19wait},
 	"C19o": {"other", props.C19shift},
 	"C10z": {"other", props.C19shift},
 	"C20":  {"other", props.C20transport},
@@ -98,6 +99,8 @@ var registry = map[string]propDef{
 	"C03p": {"other", props.C03parallel},
 	"C12r": {"other", props.C03rewrite},
 	"C12o": {"other", props.C12outputs},
+	"C12g": {"other", props.C12guards},
+	"C12u": {"other", props.C12operands},
 	"C04r": {"other", props.C02ranges},
 	"C04w": {"other", props.C05wiring},
 	"C06s": {"other", props.C06prg},
